@@ -5,8 +5,11 @@ import (
 	"fmt"
 	"os"
 
+	"verifh/eng/codec"
 	"verifh/eng/conc"
 	"verifh/eng/crypto"
+	"verifh/eng/evdb"
+	"verifh/eng/notar"
 	"verifh/eng/schist"
 	"verifh/eng/store"
 	"verifh/eng/unitchain"
@@ -21,6 +24,9 @@ var engines = map[string]func([]string) int{
 	"store":     store.Main,
 	"conc":      conc.Main,
 	"crypto":    crypto.Main,
+	"codec":     codec.Main,
+	"evdb":      evdb.Main,
+	"notar":     notar.Main,
 	"unitsc":    unitsc.Main,
 	"unitchain": unitchain.Main,
 }
